@@ -235,6 +235,14 @@ Verdict(c, x, hasN, n, out) ==
     ELSE IF ex.flags /\ out.ov # ex.ov THEN "overflow-flag"
     ELSE "ok"
 
+\* value-only judgement (C10: a lowered program must map x to what the source context's rounding gives;
+\* flags are not observable there, and where the context refuses the operand any error will do)
+ValueVerdict(c, x, out) ==
+    LET ex == Expect(c, x, FALSE, 0) IN
+    IF "err" \in DOMAIN out THEN (IF ex.errs # {} THEN "ok" ELSE "lowered-raises")
+    ELSE IF ex.vals = {} THEN "lowered-returns-where-source-refuses"
+    ELSE IF \E v \in ex.vals : Same(v, Canon(out.val)) THEN "ok" ELSE "lowered-value"
+
 \* the rounding function as a plain operator (deterministic contexts, used by
 \* Arith / the machine): the value, or NaN-tagged error
 RoundVal(c, x) ==
